@@ -30,6 +30,9 @@ def run(ctx, R, tier):
     pickup_order(F, R, rule='B.C17.pickup-order', which=('renderer',))
     # 'equals the mapping of the modulator's current value': nothing runs on a cached copy of a parameter's value
     c06.param_cache(F, R, rule='B.C17.param-cache')
+    # 'in the same chunk in which the modulator produced it', whatever state the owner is in: a linked parameter is updated
+    # before any freeze gate of its owner, on every path
+    c06.ungated(F, R, rule='B.C17.ungated')
     c06.accumulators(F, R, rule='B.C17.accumulate')
     from ..enginea import run_singular_only
     run_singular_only(R, F, lambda fn: 'value::Mapping' in fn or 'modulator::' in fn, floor=2)
